@@ -1013,7 +1013,37 @@ def standard_check(ctx, prop_modules, components, level="proof", assumptions=(),
         process_failures(ctx, comp, fails)
     if extra_run:
         extra_run(ctx)      # components with their own flow (e.g. the allocation-failure sweeps of C14)
+    if not ctx.proof_ok and not [v for v in ctx.violations if v[0] == "L1"]:
+        try:
+            documented_model_search(ctx, components)
+        except Exception as e:      # the search is an extra: without it the run still ends in no-failing-input-found
+            ctx.proof_msgs.append("search against the documented constants not possible: %r" % (e,))
     return finish(ctx, level, prop_modules, explanation)
+
+
+def documented_model_search(ctx, components):
+    """A proof obligation is broken (typically: a constant re-extracted from the changed source is no longer the documented
+    one) and no failing input was found with the model regenerated from that source -- model and code changed together, so
+    they agree.  Compare the code with the model built on the DOCUMENTED constants instead (the stored copies under
+    tools/extractors/fallback/, for which every theorem holds): a property-level difference there is a failing input."""
+    sys.path.insert(0, os.path.join(VERIF, "tools"))
+    import extract
+    gendir = os.path.join(LEAN, "Percival", "Gen")
+    with LakeLock():
+        for f in sorted(os.listdir(extract.FALLBACK)):
+            if f.endswith(".lean"):
+                extract.use_fallback(gendir, f[:-5])
+        ok, _ = lake_build(["pmodel"])
+        if ok:
+            private_pmodel(ctx)
+    if not ok:
+        return
+    ctx.proof_msgs.append("failing-input search repeated against the model built on the documented constants (fallback copies of Gen/*)")
+    for comp in components:
+        fails = [f for f in check_component(ctx, comp) if f["kind"] == "L1"]
+        process_failures(ctx, comp, fails)
+        if [v for v in ctx.violations if v[0] == "L1"]:
+            break
 
 
 def replay(ctx, components, path):
